@@ -85,3 +85,25 @@ Theorem C07_net_only_wanted :
 Proof. exact (@Net_props2.C07_net_only_wanted). Qed.
 
 Print Assumptions C07_net_only_wanted.
+
+(* ---- seen from the receiving client (package K, with package G's C07_net_only_wanted): a client is only ever handed blocks
+   it asked that very peer for. *)
+From BS Require Import Types Wantlist Wantlist_proofs2 Client Client_proofs Client_proofs4 Net Net_proofs Net_proofs6 Net_props Net_proofs2 Net_proofs5 Net_proofs21 Net_proofs40 Net_proofs41 Net_proofs42 Net_proofs43 Net_proofs44 Net_proofs45 Net_proofs46 Net_proofs47 Server Net_props4.
+From Coq Require Import ZArith Lia.
+Open Scope N_scope.
+
+Theorem client_receives_only_requested :
+  forall (Sz : N) (Hh : hash_fn),
+  32 <= Sz ->
+  forall (n : nat) (ops : list nop) (i : N) (p : peer) (pres : list (cid * bool)) 
+    (bl : list (cid * bytes)) (c : cid) (d : bytes),
+  Forall (nop_good Sz Hh) ops ->
+  In (CIncoming p pres bl) (cops_run Sz Hh (net_init n) ops i) ->
+  In (c, d) bl ->
+  pres = [] /\
+  (exists (ops1 ops2 : list nop) (view : list cid),
+     ops = ops1 ++ NPoll p :: ops2 /\
+     sview Sz i (fst (srun_l Sz (sops_run Sz Hh (net_init n) ops1 p))) = Some view /\ In c view).
+Proof. exact (@Net_props4.client_receives_only_requested). Qed.
+
+Print Assumptions client_receives_only_requested.
